@@ -230,6 +230,11 @@ func NewPool(kt string, code uint, variant string) *Pool {
 	// self loop: the parser refuses it in every mode
 	rec("R00", "r0", c("r0"), c("v0"), svc("r00"), nil, func(a *sidetree.Op) { a.ParseOK = false }, "legit", "")
 
+	// U01x: a legitimate update whose signed data also carries the members a deactivate reads (recoveryKey, didSuffix); the
+	// forged deactivate Fx(D0) below re-uses its signed data verbatim
+	upd("U01x", "u0", c("u1"), svc("u01x"), func(s *OpSpec) {
+		s.SignedExtra = map[string]interface{}{"recoveryKey": JWKMap(k("r0"), ""), "didSuffix": suffix}
+	}, nil, "legit", "")
 	// ---- deactivates
 	dea("D0", "r0", nil, nil, "legit", "")
 	dea("D1", "r1", nil, nil, "legit", "")
@@ -326,6 +331,16 @@ func NewPool(kt string, code uint, variant string) *Pool {
 		forged("w", func(s *OpSpec) { s.PayloadKey = s.SignKey; s.SignKey = k("a0"); s.From, s.Until = LateFrom, LateUntil }, nil)
 		if b.typ == "deactivate" {
 			forged("g", func(s *OpSpec) { s.SignedSuffix = "EiOtherSuffix" }, func(a *sidetree.Op) { a.ParseOK = false; a.Authorized = true })
+		}
+		if b.id == "D0" {
+			// (x) cross-type replay: the signed data of the legitimate update U01x (signed by the update key, naming the recovery
+			// key in an extra member) inside a deactivate that reveals the recovery key. Whatever an implementation remembers
+			// about a signed-data string it has verified before, this deactivate is not signed by the recovery key.
+			var ux map[string]interface{}
+			if err := json.Unmarshal(p.Ops["U01x"].Req, &ux); err != nil {
+				panic(err)
+			}
+			forged("x", func(s *OpSpec) { s.Extra = map[string]interface{}{"signedData": ux["signedData"]} }, nil)
 		}
 		// tampered copies: the legitimate operation's own next commitments (and an evil document), with a signature that does not
 		// verify. Whatever bookkeeping an implementation does with an operation's next commitment before it has verified the
